@@ -1104,6 +1104,11 @@ func ValidateOutput(code uint16, output string) error {
 		return sdkerrors.Wrap(ErrInvalidResponse, "output is not valid JSON")
 	}
 
+	// JSON interfaces (legacy queries, events, module callbacks' consumers) cannot carry other text
+	if !utf8.ValidString(output) {
+		return sdkerrors.Wrap(ErrInvalidResponse, "output is not valid UTF-8")
+	}
+
 	return nil
 }
 
